@@ -202,3 +202,31 @@ Proof.
   unfold define_and_expand. destruct (define_macros stmts e) as [rest e']. simpl.
   destruct e'; [reflexivity|]. destruct (expand_macros _ _) as [[]|]; reflexivity.
 Qed.
+
+(* separate call sites expand independently: the expansion of a sequence of statements is the sequence of the expansions
+   of each statement on its own - nothing an earlier or later statement contains (another call of the same macro, a call
+   of another one) enters it; likewise for the two operands of an operator and the elements of a call's argument list *)
+Lemma bl_with_app (rec : node -> node) l1 l2 : bl_with rec (l1 ++ l2) = bl_with rec l1 ++ bl_with rec l2.
+Proof. induction l1 as [|x l1 IH]; simpl; [reflexivity|]. rewrite IH. reflexivity. Qed.
+
+Theorem statements_expand_independently e l1 l2 :
+  expand_spec e (NStmts (l1 ++ l2)) = NStmts (bl_with (expand_spec e) l1 ++ bl_with (expand_spec e) l2).
+Proof. unfold expand_spec. cbn [bu]. rewrite bl_with_app. reflexivity. Qed.
+
+Theorem statement_expansion_is_local e l1 s l2 :
+  expand_spec e (NStmts (l1 ++ Some s :: l2))
+  = NStmts (bl_with (expand_spec e) l1 ++ Some (expand_spec e s) :: bl_with (expand_spec e) l2).
+Proof. rewrite statements_expand_independently. reflexivity. Qed.
+
+Theorem operands_expand_independently e t a b :
+  expand_spec e (NInfix t (Some a) (Some b)) = NInfix t (Some (expand_spec e a)) (Some (expand_spec e b)).
+Proof. reflexivity. Qed.
+
+(* two call sites of the same macro with the same arguments expand to the same tree, wherever they are *)
+Theorem same_call_same_expansion e c l1 l2 l3 :
+  exists x, expand_spec e (NStmts (l1 ++ Some c :: l2 ++ Some c :: l3))
+            = NStmts (bl_with (expand_spec e) l1 ++ Some x :: bl_with (expand_spec e) l2 ++ Some x :: bl_with (expand_spec e) l3).
+Proof.
+  exists (expand_spec e c). rewrite statement_expansion_is_local. f_equal. f_equal. f_equal.
+  change (Some c :: l3) with ([Some c] ++ l3). rewrite !bl_with_app. reflexivity.
+Qed.
